@@ -14,3 +14,8 @@ def run(ctx, rep):
     more.rule_meminit_refact(mod, rep)
     from ..rules import more3
     more3.rule_fixup_snapshot(mod, rep)
+    from ..rules import more4
+    more4.rule_nsuper_from_n(mod, rep)
+    more4.rule_slot_rectangle(mod, rep)
+    from ..rules import more4
+    more4.rule_extent_pairs(mod, rep)
